@@ -5,6 +5,7 @@ package main
 
 import (
 	"context"
+	"regexp"
 	"encoding/json"
 	"flag"
 	"fmt"
@@ -28,6 +29,60 @@ func pkgNameOf(ld *Loaded, pkg string) string {
 		}
 	}
 	return filepath.Base(pkg)
+}
+
+// schedDependent reports whether the counterexample needs a particular interleaving.
+func schedDependent(v *Violation) bool {
+	for _, d := range v.Decisions {
+		if d.Kind == "ch:sched" && d.Val != 0 {
+			return true
+		}
+	}
+	return false
+}
+
+var lockStmt = regexp.MustCompile(`(?m)^(\s*)([A-Za-z_][A-Za-z0-9_.]*)\.Lock\(\)\s*$`)
+
+// instrumentLocks returns overlay entries that put a randomised yield before every mutex
+// acquisition of the package directories given (native schedules are steered by perturbation).
+func instrumentLocks(work string, dirs []string) map[string]string {
+	out := map[string]string{}
+	for _, dir := range dirs {
+		ents, err := os.ReadDir(filepath.Join(repoDir, dir))
+		if err != nil {
+			continue
+		}
+		pkgName := ""
+		touched := false
+		for _, e := range ents {
+			n := e.Name()
+			if e.IsDir() || !strings.HasSuffix(n, ".go") || strings.HasSuffix(n, "_test.go") {
+				continue
+			}
+			src, err := os.ReadFile(filepath.Join(repoDir, dir, n))
+			if err != nil {
+				continue
+			}
+			if m := regexp.MustCompile(`(?m)^package\s+(\w+)`).FindSubmatch(src); m != nil {
+				pkgName = string(m[1])
+			}
+			if !lockStmt.Match(src) {
+				continue
+			}
+			ns := lockStmt.ReplaceAll(src, []byte("${1}verifSchedPoint()\n${1}${2}.Lock()"))
+			dst := filepath.Join(work, strings.ReplaceAll(dir, "/", "_")+"_"+n)
+			os.WriteFile(dst, ns, 0o644)
+			out[filepath.Join(repoDir, dir, n)] = dst
+			touched = true
+		}
+		if touched && pkgName != "" {
+			helper := "package " + pkgName + "\n\nimport (\n\t\"math/rand\"\n\t\"runtime\"\n\t\"time\"\n)\n\nfunc verifSchedPoint() {\n\tswitch rand.Intn(4) {\n\tcase 0:\n\t\truntime.Gosched()\n\tcase 1:\n\t\ttime.Sleep(time.Duration(rand.Intn(50)) * time.Microsecond)\n\t}\n}\n"
+			dst := filepath.Join(work, strings.ReplaceAll(dir, "/", "_")+"_zz_verif_sched.go")
+			os.WriteFile(dst, []byte(helper), 0o644)
+			out[filepath.Join(repoDir, dir, "zz_verif_sched.go")] = dst
+		}
+	}
+	return out
 }
 
 func replayNative(path string, v *Violation, ld *Loaded) (bool, string) {
@@ -71,9 +126,27 @@ func TestVerifReplay(t *testing.T) {
 	case <-time.After(4 * time.Second):
 		hung = true
 	}
-	fmt.Printf("VERIF-REPLAY failures=%%q invalid=%%q panic=%%q hung=%%v\n", verifrt.Failures, verifrt.Invalid, pan, hung)
+	// schedule-dependent counterexamples: the data is replayed exactly, the interleaving is searched
+	// for by repeating the run with randomised yields at every lock acquisition
+	deadline := time.Now().Add(%d * time.Second)
+	iters := 1
+	for !hung && pan == "" && len(verifrt.Failures) == 0 && time.Now().Before(deadline) {
+		verifrt.Reset()
+		iters++
+		func() {
+			defer func() {
+				if r := recover(); r != nil {
+					if _, ok := r.(verifrt.ReplayEnd); !ok {
+						pan = fmt.Sprintf("panic: %%v", r)
+					}
+				}
+			}()
+			%s()
+		}()
+	}
+	fmt.Printf("VERIF-REPLAY failures=%%q invalid=%%q panic=%%q hung=%%v iterations=%%d\n", verifrt.Failures, verifrt.Invalid, pan, hung, iters)
 }
-`, name, verifrtPath, v.Harness)
+`, name, verifrtPath, v.Harness, stressSeconds(v), v.Harness)
 	testPath := filepath.Join(work, "zz_verif_replay_test.go")
 	os.WriteFile(testPath, []byte(test), 0o644)
 	repl := map[string]string{}
@@ -86,6 +159,11 @@ func TestVerifReplay(t *testing.T) {
 		return nil
 	})
 	repl[filepath.Join(repoDir, rel, "zz_verif_replay_test.go")] = testPath
+	if schedDependent(v) {
+		for k, p := range instrumentLocks(work, []string{rel, "internal/common"}) {
+			repl[k] = p
+		}
+	}
 	ovPath := filepath.Join(work, "overlay.json")
 	data, _ := json.Marshal(map[string]any{"Replace": repl})
 	os.WriteFile(ovPath, data, 0o644)
@@ -116,6 +194,13 @@ func TestVerifReplay(t *testing.T) {
 		return strings.Contains(line, "hung=true"), line
 	}
 	return strings.Contains(line, `"`+v.Site+`"`), line
+}
+
+func stressSeconds(v *Violation) int {
+	if schedDependent(v) && v.Site != "nodeadlock" && v.Site != "nopanic" {
+		return 40
+	}
+	return 0
 }
 
 func tail(s string, n int) string {
